@@ -28,7 +28,10 @@ def burst_case(draw):
   return {"pubs": pubs, "schedule": sched_, "publishers": draw(st.sampled_from([1, 1, 2])),
           # publish through the fabric directly, or through a (decorated / undecorated) active object
           "via": draw(st.sampled_from(["fabric", "fabric", "ao_decorated", "ao_undecorated"])),
-          "before_start": draw(st.sampled_from([0, 0, 1, 2, 3, 4]))}
+          "before_start": draw(st.sampled_from([0, 0, 1, 2, 3, 4])),
+          # a long-lived process: this many publications were made before the case starts
+          "published_before": draw(st.sampled_from([None, None, 2 ** 15 - 3, 2 ** 16 - 4, 2 ** 31 - 3, 2 ** 32 - 5,
+                                                    2 ** 63 - 4]))}
 
 
 class C08(Prop):
@@ -36,7 +39,7 @@ class C08(Prop):
   quick_examples = 500
   thorough_examples = 6000
   rule = ("Generated bursts of 2-9 publications (signal, priority from a small set so that equal "
-          "priorities are common; None = default) made by the body thread - through the fabric or through a decorated or "
+          "priorities are common; None = default; in a third of the cases the process has already made 2^15..2^63 publications, simulated by advancing the library's publication counter) made by the body thread - through the fabric or through a decorated or "
           "undecorated active object's publish() - (optionally split over "
           "two publisher threads; the first 0-4 of them before the fabric is started, so that they "
           "are waiting in it when it starts) against the real ActiveFabric under the deterministic scheduler; "
@@ -65,6 +68,11 @@ class C08(Prop):
       signals.append(s_)
     pubs = {}     # id -> dict(prio, inv, ret)
     recs = {"fifo": StampedRecorder(), "lifo": StampedRecorder()}
+    if case.get("published_before") is not None and hasattr(ao.FabricEvent, "sequence"):
+      # stand in for the publications of a long-lived process by advancing the library's own
+      # publication counter (miros.activeobject.FabricEvent.sequence, an itertools.count)
+      import itertools
+      ao.FabricEvent.sequence = itertools.count(case["published_before"])
 
     def body(s):
       af = ao.ActiveFabric()
